@@ -151,6 +151,44 @@ fn big_case(rng: &mut Rng, id: &str, out: &mut dyn Write) {
     }
 }
 
+/// Replay-time part of `BEH` that needs only the image: a dictionary read from it writes the same bytes again,
+/// into a `Vec` and into sinks that accept a few bytes per call, and reports their number.
+pub fn replay_beh(v: &[u8]) -> &'static str {
+    let r = crate::wire::guarded(|| -> Option<bool> {
+        let b = Dictionary::read(v).ok()?;
+        let mut buf = vec![];
+        let nb = b.write(&mut buf).ok()?;
+        let mut ok = nb == buf.len() && buf == v;
+        for cap in [1usize, 5, 16, 20, 21, 100] {
+            let mut sink = ChunkSink { buf: vec![], cap };
+            let ns = b.write(&mut sink).ok()?;
+            ok = ok && sink.buf == v && ns == v.len();
+        }
+        Some(ok)
+    });
+    match r {
+        Some(Some(true)) => "1",
+        Some(Some(false)) => "0",
+        _ => "na",
+    }
+}
+
+struct ChunkSink {
+    buf: Vec<u8>,
+    cap: usize,
+}
+
+impl Write for ChunkSink {
+    fn write(&mut self, data: &[u8]) -> std::io::Result<usize> {
+        let k = data.len().min(self.cap);
+        self.buf.extend_from_slice(&data[..k]);
+        Ok(k)
+    }
+    fn flush(&mut self) -> std::io::Result<()> {
+        Ok(())
+    }
+}
+
 pub fn run(mode: &str, seed: u64, n: usize, out: &mut dyn Write) {
     let mut rng = Rng::new(seed ^ 0x696d67);
     let mut made = 0;
@@ -189,7 +227,11 @@ pub fn run(mode: &str, seed: u64, n: usize, out: &mut dyn Write) {
                     let (tb, _) = tokens_of(b2, &sents, ign)?;
                     let mut again = vec![];
                     a2.write(&mut again).ok()?;
-                    Some(ta == tb && again == v)
+                    // a sink whose write() accepts only a few bytes per call (legal for `Write`): same image, same count
+                    let cap = *srng.pick(&[1usize, 5, 16, 20, 21, 100]);
+                    let mut sink = ChunkSink { buf: vec![], cap };
+                    let ns = a2.write(&mut sink).ok()?;
+                    Some(ta == tb && again == v && sink.buf == v && ns == v.len())
                 })();
                 let beh = match beh {
                     Some(true) => "1",
